@@ -64,6 +64,7 @@ def run(ctx):
     ctx.trusted += [
         "named assumption (Model/QCache.v): the 64-bit SipHash of hash_embedding is injective on (len, list of hashed u32 patterns) — no 64-bit collision; the model key is the list of the VALUES whose bit patterns are hashed (round(32768 v) when finite in f32, else v); NaN/infinite query components are not modelled",
         "float gap: the model and the theorems are over exact rationals with every sqrt comparison squared (SQ comments in Model/QCache.v); the code computes norms, sqrt, the division and the running sums in f32. Correspondence inputs are on dyadic grids where all sums are exact and pools whose decisions would hinge on a sqrt/division rounding are regenerated (counted); the prefilter's rounding gap at the bound is MEASURED by the near-boundary stream against exact rationals (tolerance 1e-6*max(1,|w|)), not proved",
+        "the ORDER of TieredEngine::insert/delete (cold write, then bump+remove) that C07_no_store_after_invalidate assumes is tied to the code by the deterministic order probe and by the concurrent stream R (schedule dependent, so a clean run is evidence, not proof)",
         "hooks H5 (cfg kyrodb_verif): verif_hash_embedding, verif_insert_can_affect_cached_boundary (recomputes the embedding stats exactly as invalidate_for_insert does)",
         "oracle premises of C07_entry_valid/C07_hit_valid (O_live, O_len, O_sorted, O_omit, plus for C07_k_monotone the link 'a document reported at distance d is not strictly inside any boundary w <= d'; all shown satisfiable by an executable exact k-NN in C07_oracle_premises_satisfiable): the uncached hot+cold search is an exact k-NN reporting the current distance of live documents (HNSW recall is C06/C16 territory; tiny collections in the engine stream make it exhaustive); QueryHashCache::distance and the index report the same distance for the same pair",
         "engine model: vectors already normalised (cosine/inner product normalisation is idempotent — C02's hypothesis); statistics, cached_at and non-finite floats are not modelled; each cache method is one atomic step (state RwLock) and an invalidation is 'bump generation, then remove under the lock'",
@@ -93,12 +94,19 @@ def run(ctx):
     summ = json.load(open(os.path.join(out, "summary.json")))
     allc = json.load(open(os.path.join(out, "all_cases.json")))
     r = _eval_shards(ctx, out, summ)
-    A, B, E, H, P = (summ.get(k, {}) for k in ("A", "B", "E", "H", "probe"))
+    A, B, E, H, P, R = (summ.get(k, {}) for k in ("A", "B", "E", "H", "probe", "R"))
     near = r["B"]["near"]
     ctx.cov.update({
-        "evaluations": A.get("cases", 0) + r["B"]["grid"]["n"] + near["n"] + E.get("histories", 0) + r["H_n"],
+        "evaluations": A.get("cases", 0) + r["B"]["grid"]["n"] + near["n"] + E.get("histories", 0) + r["H_n"] + R.get("rounds", 0),
+        "race_rounds": R.get("rounds", 0),
+        "race_stale_rounds": R.get("stale_rounds", 0),
+        "race_concurrent_searches_per_round_mean": R.get("concurrent_searches_per_round_mean"),
+        "race_concurrent_searches_per_round_min": R.get("concurrent_searches_per_round_min"),
+        "race_rounds_with_final_cache_hit": R.get("rounds_with_final_cache_hit"),
+        "race_variants": R.get("variants"),
+        "order_probe": R.get("order_probe"),
         "distinct_nontrivial": A.get("nontrivial", 0) + E.get("histories_with_hit_after_write", 0),
-        "rule": "A: seeded op sequences on the public QueryHashCache (get_scoped, insert_with_k_scoped, insert_with_k_scoped_if_generation with current/stale generation, invalidate_doc, invalidate_for_insert x 3 metrics, clear, len, invalidation_generation) over dyadic-grid vectors (k/16 and 8k/16, i.e. inside and well outside the unit box, dims 1-8 and 33-40 to cross the 32-dim prefix, plus same-cell off-grid queries, large-component queries built from {5,3,2,7,-4,1e6,-1e6,100.5,32767,40000} incl. the old witness pair [5,3]/[2,7], and vectors of another dimension), 1-3 scopes, capacities {1,2,4,12}, thresholds {1.0,0.9,0.5,0.0}, scan limit {2000,10}; every observation compared exactly with Model/QCache.v inside coqc. B: prefilter differential through the hook (grid rows must agree exactly; near-boundary rows measured). H: hash-key equality vs the quantised key. E: engine histories with SearchExecutionPath::CacheHit checked against a fresh uncached search. A case is non-trivial when it is distinct and contains a cache hit after an intervening invalidation/write",
+        "rule": "A: seeded op sequences on the public QueryHashCache (get_scoped, insert_with_k_scoped, insert_with_k_scoped_if_generation with current/stale generation, invalidate_doc, invalidate_for_insert x 3 metrics, clear, len, invalidation_generation) over dyadic-grid vectors (k/16 and 8k/16, i.e. inside and well outside the unit box, dims 1-8 and 33-40 to cross the 32-dim prefix, plus same-cell off-grid queries, large-component queries built from {5,3,2,7,-4,1e6,-1e6,100.5,32767,40000} incl. the old witness pair [5,3]/[2,7], and vectors of another dimension), 1-3 scopes, capacities {1,2,4,12}, thresholds {1.0,0.9,0.5,0.0}, scan limit {2000,10}; every observation compared exactly with Model/QCache.v inside coqc. B: prefilter differential through the hook (grid rows must agree exactly; near-boundary rows measured). H: hash-key equality vs the quantised key. E: engine histories with SearchExecutionPath::CacheHit checked against a fresh uncached search. R: per round a persistent TieredEngine (FsyncPolicy::Always), one thread looping cache-enabled knn_search on a fixed query while the main thread performs one acknowledged write (insert exact/closer, overwrite closer/away, delete of the nearest); after join two cache-enabled searches must equal a fresh uncached one (stale round = class C07-store-after-invalidate); plus the deterministic order probe (a cold-tier-refused insert and a delete of an absent id leave the invalidation generation and the cache untouched, an accepted insert bumps it by exactly 2). A case is non-trivial when it is distinct and contains a cache hit after an intervening invalidation/write",
         "samples": (A.get("samples") or [])[:1] + ([E.get("sample")] if E.get("sample") else []),
         "histogram": {"cache_ops": A.get("histogram"), "prefilter": B.get("histogram"),
                       "engine": {k: E.get(k) for k in ("histories", "searches", "cache_hits", "cache_hits_after_intervening_write", "reference_live_set_mismatch")},
@@ -136,6 +144,13 @@ def run(ctx):
 
     # --- decide: genuine failing inputs first
     fails = [probe_fail] if probe_fail else []
+    if R.get("stale_rounds", 0) > 0:
+        first = R["stale"][0]
+        fails.append({"property": "C07", "kind": "oracle", "stream": "R", "class": "C07-store-after-invalidate",
+                      "why": first["why"], "first_stale_round": first, "stale_rounds": R["stale_rounds"], "rounds": R["rounds"],
+                      "case": {"stream": "R", "rounds": R["rounds"], "seed": R["seed"]},
+                      "note": "schedule dependent: --replay re-runs the whole stream (4x the rounds) with this seed; a result computed before the write was stored after the write's invalidation and is served after the write was acknowledged",
+                      "replay_cmd": "./check C07 --replay <this file>"})
     for f in A.get("oracle_failures", []):
         fails.append({"property": "C07", "kind": "oracle", "stream": "A", "why": f["why"], "case": f["case"],
                       "replay_cmd": "./check C07 --replay <this file>"})
@@ -167,6 +182,9 @@ def run(ctx):
         broken.append({"kind": "correspondence", "stream": "H", "disagreeing_pair_ids": r["H_bad"][:20]})
     if r["P_bad"]:
         broken.append({"kind": "correspondence", "stream": "probe"})
+    if R and not (R.get("order_probe") or {}).get("ok", True):
+        broken.append({"kind": "order-tie", "detail": R.get("order_probe"),
+                       "what": "TieredEngine::insert/delete no longer invalidate the query cache strictly AFTER the cold-tier write (model EInsert: collection, then invalidate_doc, then invalidate_for_insert; C07_no_store_after_invalidate assumes mutate -> bump)"})
     if not broken or ctx.replay:
         if broken:
             ctx.violation({"property": "C07", "kind": "no-failing-input-found", "broken": broken}, no_input=True)
@@ -184,6 +202,10 @@ def run(ctx):
         for stream in ("A", "E"):
             for f in s2.get(stream, {}).get("oracle_failures", []):
                 found = found or {"stream": stream, "why": f["why"], "case": f["case"]}
+        R2 = s2.get("R", {})
+        if not found and R2.get("stale_rounds", 0) > 0:
+            found = {"stream": "R", "why": R2["stale"][0]["why"] + " (class C07-store-after-invalidate; %d stale of %d rounds; schedule dependent)" % (R2["stale_rounds"], R2["rounds"]),
+                     "case": {"stream": "R", "rounds": R2["rounds"], "seed": R2["seed"]}}
         if not found:
             r2 = _eval_shards(ctx, out2, s2)
             for i in r2["B"]["near"]["unsound_tol"][:1]:
